@@ -54,6 +54,27 @@ def _exc(kind, arm, side, item):
     return (kind, arm, side, item) in SIB_EXCEPT or (kind, "*", side, item) in SIB_EXCEPT
 
 
+_CMP_NOISE = {"Writer::new", "replace", "take", "swap"}
+
+
+def _arm_cmps(fn, blocks):
+    from .. import condparity as CP
+    out = set()
+    for a, b, tb in atoms.all_atoms(fn):
+        if b not in blocks:
+            continue
+        g = sig.sig(a, fn)
+        st = CP.structural(g)
+        calls = tuple(c for c in st["calls"] if c not in _CMP_NOISE)
+        if any(c.endswith(("pull_byte", "need_bits")) for c in calls):
+            continue
+        if not (st["names"] or calls):
+            continue
+        cls = "ord" if g.rel in CP.ORD_RELS else "eq"
+        out.add((cls, calls, tuple(st["names"]), tuple(st["consts"]), tuple(st.get("variants", ()))))
+    return out
+
+
 def siblings(ck, P):
     R = "SIB/arms"
     d = P.fn(decoders.DISPATCH)
@@ -80,6 +101,12 @@ def siblings(ck, P):
                       "inside this arm decodes differently from one that does not" % (arm, kind, sorted(map(str, only_d)), sorted(map(str, only_l))),
                       where(d))
         ck.sample("arm %s: fields %s consts %s" % (arm, sorted(a["fields"]), sorted(a["consts"])))
+        # the decisions of the two copies: comparisons over state fields and vocabulary calls (working locals excluded; the
+        # suspension machinery and the local copy of the writer differ by construction)
+        ca, cb = _arm_cmps(d, rd[arm]), _arm_cmps(l, rl[arm])
+        ck.decide(ca == cb, R, "%s:decisions" % arm, "same comparisons (%d)" % len(ca & cb),
+                  "the two copies of arm %s decide differently: only in dispatch %s, only in len_and_friends %s - a schedule that suspends "
+                  "inside this arm decodes differently from one that does not" % (arm, sorted(ca - cb), sorted(cb - ca)), where(d))
     # Len (slow) vs fast function: masks and messages
     f = P.fn(decoders.FAST)
     if ck.anchor("fn inflate_fast_help_impl", f) and "Len" in rl:
